@@ -192,6 +192,12 @@ class BADS:
         if self.options["stobads"] is None or self.options["stobads"] == False:
             self.options["stobads"] = False
 
+        # The mesh multiplier is raised to negative integer powers: an integer
+        # value (e.g. poll_mesh_multiplier=4) must behave like the float
+        self.options["poll_mesh_multiplier"] = float(
+            self.options["poll_mesh_multiplier"]
+        )
+
         # set up random seed
         self._init_random_seed_()
 
